@@ -121,9 +121,12 @@ def dec_string(rng):
     digits = rng.choice((1, 2, 5, 17, 20, 40, 60))
     ip = "".join(rng.choice("0123456789") for _ in range(rng.randint(1, digits)))
     s = ip
-    if rng.random() < 0.6:
+    if rng.random() < 0.06:
+        # a fraction written without its integer part (".5"): the decimal reader takes it, so it is one more spelling
+        s = "." + "".join(rng.choice("0123456789") for _ in range(rng.randint(1, min(40, digits))))
+    elif rng.random() < 0.6:
         s += "." + "".join(rng.choice("0123456789") for _ in range(rng.randint(1, min(40, digits))))
-    if rng.random() < 0.3:
+    if rng.random() < 0.3 and not s.startswith("."):
         s = "0" * rng.randint(1, 4) + s
     if rng.random() < 0.3 and "." in s:
         s += "0" * rng.randint(1, 4)
@@ -349,7 +352,7 @@ def run(env):
     stats = core.run_workers(__name__, "worker", PROP, env.tier, env.seed, env.driver, env.hooks_on,
                              40 if quick else 400, {"units_per_worker": 3000 if quick else 80000})
     return core.finish(PROP, env.tier, env.seed, LEVEL, stats, env.t0, RULE, min_conclusive=5000 if quick else 50000,
-                       assumptions=["number-as-string operands are spelt -?digits[.digits][(e|E)[+-]?digits] (leading zeros allowed); other spellings are not claimed by the documentation",
+                       assumptions=["number-as-string operands are spelt -?(digits[.digits]|.digits)[(e|E)[+-]?digits] (leading zeros allowed); other spellings are not claimed by the documentation",
                                     "sorting among integers >= 2^53 is only required to return the same multiset (C07 excludes their order); templates sort by a constant"])
 
 
